@@ -67,6 +67,7 @@ def play(args):
     ev = []
     fed = False
     nfail = [idx]
+    probe_after_stop = False
     try:
         i = 0
         while i < len(acts):
@@ -110,6 +111,7 @@ def play(args):
                 L.data(b"0;255;3;0;2;2.3.2\n")
             elif name == "Stop":
                 L.stop()
+                probe_after_stop = True
             elif name == "DialEnd":
                 if not L.release(a["ok"]):
                     i = j       # the dial was cancelled (asyncio stop()): nothing ends, the event does not exist
@@ -125,6 +127,20 @@ def play(args):
                     L.data(b"0;255;0;0;18;2.2\n0;1;0;0;3;relay\n0;1;1;0;2;1\n0;255;3;0;32;500\n")
                 fed = True
             obs = L.observe()
+            if probe_after_stop:
+                probe_after_stop = False
+                if L.release(True):
+                    # a dial was still in flight when stop() returned and has now been answered: an event of its own (the
+                    # specification says for which flavours and dials that can happen)
+                    for k, g in enumerate(group):
+                        e = dict(g)
+                        e["obs"] = (k == len(group) - 1) and j < len(acts)
+                        e["o"] = obs
+                        e["cause"] = name
+                        ev.append(e)
+                    group = [{"a": "DialEnd", "d": 0, "ok": True}]
+                    name = "DialEnd"
+                    obs = L.observe()
             for k, g in enumerate(group):
                 e = dict(g)
                 # the last group of a behaviour may be cut by the depth bound before its urgent system actions: not compared
